@@ -51,7 +51,8 @@ func main() {
 		_ = pprof.StartCPUProfile(f)
 		defer pprof.StopCPUProfile()
 	}
-	debug.SetGCPercent(1000) // the enumerations allocate short-lived garbage; memory is plentiful
+	debug.SetMemoryLimit(10 << 30)
+	debug.SetGCPercent(600) // the enumerations allocate short-lived garbage; memory is plentiful
 	r := ev.New(id, tier, def.level)
 	code := func() (code int) {
 		defer func() {
